@@ -158,7 +158,7 @@ def create_database(
     file_hash_path = _get_file_hash_path(cmd.zettel_dir)
     file_to_hash = _get_file_hash_map(cmd.zettel_dir)
     _write_file_hash_to_disk(file_hash_path, file_to_hash)
-    error_file_whitelist.write_text("\n".join(sorted(error_files)))
+    c.atomic_write_text(error_file_whitelist, "\n".join(sorted(error_files)))
     session.commit()
 
 
@@ -254,7 +254,7 @@ def reindex_database(
         c.zprint("NO ZORG FILES HAVE BEEN MODIFIED")
 
     _write_file_hash_to_disk(file_hash_path, file_to_hash)
-    error_file_whitelist.write_text("\n".join(sorted(error_files)))
+    c.atomic_write_text(error_file_whitelist, "\n".join(sorted(error_files)))
     session.commit()
 
 
@@ -337,8 +337,9 @@ def _write_file_hash_to_disk(
     file_hash_path: Path, file_to_hash: dict[str, str]
 ) -> None:
     _LOGGER.debug("Writing hash map to disk", file=str(file_hash_path))
-    with file_hash_path.open("w") as f:
-        json.dump(dict(sorted(file_to_hash.items())), f, indent=4)
+    c.atomic_write_text(
+        file_hash_path, json.dumps(dict(sorted(file_to_hash.items())), indent=4)
+    )
 
 
 def _add_zid_to_line(zid: str, line: str) -> str:
@@ -486,7 +487,7 @@ def _update_zo_file(
         zorg_page=str(zo_path),
         notes_to_update=len(notes_to_update),
     )
-    zo_path.write_text("\n".join(zlines))
+    c.atomic_write_text(zo_path, "\n".join(zlines))
 
     # Only THIS file has been rewritten (and matches the DB again). Any other
     # file that was edited in the meantime still needs to be reindexed, so its
